@@ -133,6 +133,16 @@ def one_run(params):
             if not qs:
                 return
             last = qs[-1][3]
+            if last["data"][:3] == proto.RAW_MAGIC:
+                # the client talks raw UDP: it takes frames from any source, so only hostile frames are sent (no planted ones)
+                ctx["userid"] = last["data"][3] & 15 if len(last["data"]) > 3 else ctx.get("userid", 0)
+                d = hostile_cli.gen(rng, _dummy_q(), "raw", "D", ctx)
+                state["classes"].add("raw")
+                state["steps"].add("rawmode")
+                state["hostile"] += 1
+                src_ip = scen.SERVER_IP if rng.random() < 0.7 else spo.ip
+                k.transmit((src_ip, 53), ("10.53.1.1", last["src"][1]), d, delay_us=rng.choice([1, 500, 1500, 5000]))
+                return
             try:
                 q = proto.parse_msg(last["data"])
             except proto.ParseError:
@@ -216,6 +226,27 @@ def one_run(params):
             return out
         if h.startswith("exit:"):
             out["stats"]["client_exits"] = 1
+        # a raw-mode frame is self-contained: whatever the client writes to its tun because of a raw datagram must be
+        # exactly what that datagram's own bytes inflate to (runts, foreign commands and cut-off streams deliver nothing)
+        rcvd = {}
+        for ev in k.log:
+            if ev[2] != "cli0":
+                continue
+            if ev[1] == "recv":
+                rcvd[ev[3]["id"]] = bytes(ev[3]["data"])
+            elif ev[1] == "tun_write":
+                d = rcvd.get(ev[3].get("cause")) if not isinstance(ev[3].get("cause"), tuple) else None
+                if d is not None and (d[:3] == proto.RAW_MAGIC or len(d) < 12):
+                    out["stats"]["raw_deliveries_checked"] = out["stats"].get("raw_deliveries_checked", 0) + 1
+                    try:
+                        want = zlib.decompress(d[4:]) if (len(d) > 4 and (d[3] & 0xF0) == 0x20) else None
+                    except zlib.error:
+                        want = None
+                    if want is None or want != bytes(ev[3]["data"]):
+                        out["violations"].append(("C06:raw-datagram-delivered-what-it-does-not-carry",
+                                                  "a %d-byte raw-mode datagram (%s) made the client write a %d-byte packet to its tun that the datagram's own bytes do not inflate to"
+                                                  % (len(d), d[:8].hex(), len(ev[3]["data"])), dict(wit, time_us=ev[0], datagram=d.hex()[:200])))
+                        break
         # tun silence
         for ev in k.log:
             if ev[1] == "tun_write" and ev[2] == "cli0" and bytes(ev[3]["data"]) in planted:
